@@ -467,6 +467,12 @@ func run(c *core.Ctx) {
 				for _, b := range pc {
 					one(mk(strings.Replace(a, "..", " .. ", 1) + " | " + b))
 					one(mk(" " + a + "|\t" + strings.Replace(b, "..", "\n..", 1) + " "))
+					// an argument wrapped over lines in a file with CR LF line ends
+					one(mk(a + " |\r\n   " + strings.Replace(b, "..", "..\r\n  ", 1)))
+					one(mk("\r\n " + strings.Replace(a, "..", "\r\n..", 1) + "\r\n|" + b + "\r\n"))
+					if t.Name != "length" {
+						one(Input{Type: t.Name, FD: t.FD, Chain: []string{a + " |\r\n " + b}, Direct: true})
+					}
 				}
 			}
 		}
